@@ -433,6 +433,26 @@ def _padding(ctx: Ctx, model, mod, pk, avp):
                          "having been checked to fit 24 bits: for 2**24-8 or more data bytes the "
                          "length field wraps and the excess changes the flag octet (nothing is "
                          "rejected)", rule="C01-R3")
+    # one encoder: Avp.as_bytes is as_packed() over a fresh Packer - a second, hand-written
+    # rendering of the header (struct.pack of code / flags|length / vendor) has to repeat every
+    # obligation of the first (the 24-bit bound, V iff vendor, the padding) and is checked by none
+    # of the rules above
+    ab_ = avp.methods.get("as_bytes")
+    cons = "Avp.as_bytes:delegates-to-as_packed"
+    ctx.inst(cons, rule="C01-R3")
+    if ab_ is None:
+        ctx.error("Avp.as_bytes not found", rule="C01-R3")
+    else:
+        ctx.use(ab_)
+        calls_ = [A.call_name(c) for c in ast.walk(ab_.node) if isinstance(c, ast.Call)]
+        own = [c for c in calls_ if c.split(".")[-1] in ("pack", "pack_into", "to_bytes", "join")
+               or c.startswith("struct.")]
+        if "self.as_packed" not in calls_ or own:
+            ctx.fail(cons, ab_.loc(), f"Avp.as_bytes renders the AVP by itself ({own or 'no call of self.as_packed'}) "
+                     f"instead of through as_packed(): the second encoder is bound by none of the layout rules - "
+                     f"e.g. it has no check that the length fits 24 bits, so an over-long AVP wraps into the flag "
+                     f"octet when it is encoded on its own", rule="C01-R3",
+                     expected="return self.as_packed(Packer()).get_buffer()", observed=str(own)[:120])
     ctx.rule("C01-R4", "padding expressions are round-up-to-4; pad byte is zero", floor=3)
 
     def tmpl(e):
